@@ -31,12 +31,13 @@ POOLS = {
 CONFIGS = {
     "C01": dict(quick=["Layout_pair_quick", "Layout_pair_big"], thorough=["Layout_pair_thorough", "Layout_pair_big"], targets=["LAMMPS"]),
     "C02": dict(quick=["Layout_pair_quick", "Layout_pair_big"], thorough=["Layout_pair_thorough", "Layout_pair_big"], targets=["DLPOLY"]),
-    "C03": dict(quick=["Layout_eam_quick", "Layout_eamu_quick"], thorough=["Layout_eam_thorough", "Layout_eamu_quick"], targets=["setfl"]),
-    "C04": dict(quick=["Layout_fs_quick", "Layout_fsu_quick"], thorough=["Layout_fs_thorough", "Layout_fsu_thorough"], targets=["setfl_fs", "DL_POLY_EAM_fs", "excel_eam_fs"]),
-    "C05": dict(quick=["Layout_eam_quick", "Layout_fs_quick", "Layout_eamu_quick", "Layout_fsu_quick"], thorough=["Layout_eam_thorough", "Layout_fs_thorough", "Layout_eamu_quick", "Layout_fsu_thorough"],
+    "C03": dict(quick=["Layout_eam_quick", "Layout_eamu_quick", "Layout_eamf_quick"], thorough=["Layout_eam_thorough", "Layout_eamu_quick", "Layout_eamf_quick"], targets=["setfl"]),
+    "C04": dict(quick=["Layout_fs_quick", "Layout_fsu_quick", "Layout_fsf_quick"], thorough=["Layout_fs_thorough", "Layout_fsu_thorough", "Layout_fsf_quick"], targets=["setfl_fs", "DL_POLY_EAM_fs", "excel_eam_fs"]),
+    "C05": dict(quick=["Layout_eam_quick", "Layout_fs_quick", "Layout_eamu_quick", "Layout_fsu_quick", "Layout_eamf_quick", "Layout_fsf_quick"],
+                thorough=["Layout_eam_thorough", "Layout_fs_thorough", "Layout_eamu_quick", "Layout_fsu_thorough", "Layout_eamf_quick", "Layout_fsf_quick"],
                 targets=["DL_POLY_EAM", "DL_POLY_EAM_fs"]),
-    "C19": dict(quick=["Layout_pair_quick", "Layout_pair_big", "Layout_eam_quick", "Layout_eamu_quick", "Layout_fs_quick", "Layout_adp_quick", "Layout_funcfl"],
-                thorough=["Layout_pair_thorough", "Layout_pair_big", "Layout_eam_thorough", "Layout_fs_thorough", "Layout_adp_thorough", "Layout_funcfl"],
+    "C19": dict(quick=["Layout_pair_quick", "Layout_pair_big", "Layout_eam_quick", "Layout_eamu_quick", "Layout_eamf_quick", "Layout_fs_quick", "Layout_fsf_quick", "Layout_adp_quick", "Layout_funcfl"],
+                thorough=["Layout_pair_thorough", "Layout_pair_big", "Layout_eam_thorough", "Layout_eamf_quick", "Layout_fs_thorough", "Layout_fsf_quick", "Layout_adp_thorough", "Layout_funcfl"],
                 targets=["GULP", "excel", "excel_eam", "excel_eam_fs", "eam_adp", "funcfl"]),
 }
 
@@ -389,18 +390,28 @@ def execute(ctx, route, fail_at=0, spelling=None, workdir=None, bad=None, preexi
                 with open(inp, "w") as f:
                     f.write(text)
                 # the named output file already exists and is LONGER than the new table: nothing of it may survive
+                # (preexisting=False: no such file, a refused run must not create one)
                 if preexisting is None:
                     preexisting = "stale line of an earlier, longer tabulation 1.0 2.0 3.0\n" * 4000
-                with open(outp, "w") as f:
-                    f.write(preexisting)
-                status, so, se = run_cli([inp, outp])
+                if preexisting is not False:
+                    with open(outp, "w") as f:
+                        f.write(preexisting)
+                elif os.path.exists(outp):
+                    os.remove(outp)
+                try:
+                    status, so, se = run_cli([inp, outp])
+                except Exception as e:      # an exception that escapes main(): the process would end with a traceback
+                    status, so, se = 1, "", "uncaught %s: %s" % (type(e).__name__, str(e)[:200])
+                    res["exc_type"] = type(e).__name__
                 res["status"], res["stderr"] = status, se[-400:]
                 if status != 0:
                     res["outcome"] = "raised"
                     res["exc"] = "exit status %s: %s" % (status, se.strip().splitlines()[-1] if se.strip() else "")
                     res["data"] = open(outp, "rb" if binary else "r").read() if os.path.exists(outp) else None
-                    if res["data"] is not None and res["data"] == (preexisting.encode() if binary else preexisting):
+                    res["file_state"] = "absent" if res["data"] is None else "produced"
+                    if preexisting is not False and res["data"] is not None and res["data"] == (preexisting.encode() if binary else preexisting):
                         res["data"] = None          # the earlier file was left alone: nothing of this run reached the output
+                        res["file_state"] = "untouched"
                 else:
                     res["data"] = open(outp, "rb" if binary else "r").read()
             finally:
@@ -805,7 +816,7 @@ def _replay_one(job):
         for spelling in spellings:
             r = dict(idx=idx, route=route, spelling=spelling, bad=[], cells=0, evals=0, outcome=None, variant=variant)
             try:
-                res = execute(ctx, route, 0, spelling)
+                res = execute(ctx, route, 0, spelling, preexisting=False if (case["rejects"] and idx % 2) else None)
                 r["outcome"] = res["outcome"]
                 r["exc"] = res.get("exc")
                 r["evals"] = res["evals"]
@@ -814,6 +825,8 @@ def _replay_one(job):
                         r["bad"].append(("rejects", "row count %d is not divisible by four but a table was produced" % case["m"]["nr"]))
                     elif res["data"]:
                         r["bad"].append(("rejects", "rejected, but %d characters reached the output" % len(res["data"])))
+                    elif res.get("file_state") == "produced":
+                        r["bad"].append(("rejects", "rejected, but an (empty) output file was produced / an existing output file was emptied"))
                 elif res["outcome"] != "ok":
                     r["bad"].append(("well-formed-model-refused", "the implementation raised %s" % res["exc"]))
                 else:
